@@ -430,7 +430,7 @@ impl Check for C15 {
                     want_valid == m.valid && if k == "header_never_completes" { c.spec.mute_after == Some(0) && c.spec.close_after.is_none() && c.spec.close_on_end_ns.is_none() } else { (k == "absent") == c.spec.preamble.is_none() }
                 }
             };
-            if !consistent || !c.spec.mutations.is_empty() || !c.wplan.is_empty() || !matches!(c.spec.intent, 1..=3) {
+            if !consistent || !c.spec.mutations.is_empty() || !c.wplan.is_empty() || !matches!(c.spec.intent, 1..=3) || !c.spec.send_info || c.spec.protocol <= 0 {
                 return RunReport::default();
             }
             // cuts only inside a PROXY header, with a delay that keeps admissions at distinct instants
